@@ -7,7 +7,8 @@
 (*   Build   the build succeeded iff it is well-formed (dimension >= 1 and *)
 (*           leaf size >= 1), a malformed build is an error (not a panic,  *)
 (*           not an answer)                                                *)
-(*   Knn     every k in ks: status ok and NNRel!KnnOk -- min(k,n) distinct *)
+(*   Knn     every k in ks (incl. k far beyond n, up to usize::MAX): status *)
+(*           ok and NNRel!KnnOk -- min(k,n) distinct                       *)
 (*           stored rows with their own coordinates, ascending, no         *)
 (*           unreturned point closer than the farthest returned one        *)
 (*   Range   every radius: status ok and NNRel!RangeOk -- all points       *)
@@ -77,10 +78,14 @@ ShapeOk ==
   IF Valid THEN Len(Ev.knn) = Len(In.ks) /\ Len(Ev.rng) = NR /\ Len(Ev.bad) = Len(In.badq)
   ELSE Len(Ev.knn) = 0 /\ Len(Ev.rng) = 0 /\ Len(Ev.bad) = 0
 
+\* a negative entry of ks is a code for a k far beyond n (usize::MAX, usize::MAX / 2, 2^32, 10^12: not
+\* TLC integers); the answer is then all n points, i.e. the answer for k = n + 1.  Such a query may end
+\* in status "panic" or "abort" (allocation failure in an isolated child process): neither is "ok".
+KEff(j) == IF In.ks[j] < 0 THEN In.n + 1 ELSE In.ks[j]
 KnnStrict(D, j) ==
   /\ Ev.knn[j].k = In.ks[j]
   /\ Ev.knn[j].st = "ok"
-  /\ KnnOk(P, D, In.ks[j], Ev.knn[j].res)
+  /\ KnnOk(P, D, KEff(j), Ev.knn[j].res)
 KnnDevK0(j) ==
   /\ "ball_k0_panic" \in Devs /\ IsBall(Ev.ix)
   /\ In.ks[j] = 0 /\ In.n > 0
